@@ -28,13 +28,21 @@ def genClean : Bool :=
 /-- encode and decode of each message describe the same layout, field by field (names too). -/
 def genEncDecAgree : Bool := Gen.messages.all (fun g => g.enc == g.dec && g.payEnc == g.payDec)
 
-/-- every registered message has the shape the protocol prescribes for its type number, and
+/-- `g` is laid out as the protocol entry `m` prescribes: same type number, same fields in the
+same order – kinds *and* the API name each protocol field is bound to – same payload form. -/
+def conformsTo (g : GenMsg) (m : Spec.SpecMsg) : Bool :=
+  m.typ == g.typ && m.desc.fields == g.enc && m.pay == g.payEnc
+
+/-- every registered message has the layout the protocol prescribes for its type number, and
 every message of the protocol table is registered, each exactly once. -/
 def genConforms : Bool :=
-  Gen.messages.all (fun g => Spec.messages.any (fun m => m.shape == g.shapeEnc)) &&
-  Spec.messages.all (fun m => Gen.messages.any (fun g => m.shape == g.shapeEnc)) &&
+  Gen.messages.all (fun g => Spec.messages.any (conformsTo g)) &&
+  Spec.messages.all (fun m => Gen.messages.any (fun g => conformsTo g m)) &&
   Gen.messages.length == Spec.messages.length &&
   (Gen.messages.map (·.typ)).eraseDups.length == Gen.messages.length
+
+/-- the protocol table as a registry (used by the property monitors: independent of `Gen`). -/
+def specRegistry : Lookup := fun _ typ => (Spec.messages.find? (·.typ == typ)).map (·.desc)
 
 /-- `FixedSize()` and the payloader interface agree with the layout. -/
 def genFixedSizes : Bool :=
